@@ -949,7 +949,9 @@ var outBufPool = sync.Pool{
 // writeRecordLocked writes a TLS record with the given type and payload to the
 // connection and updates the record layer state.
 func (c *Conn) writeRecordLocked(typ recordType, data []byte) (int, error) {
-	if verifHSWriteHook != nil { verifHSWriteHook(c, typ, data) }
+	if verifHSWriteHook != nil {
+		verifHSWriteHook(c, typ, data)
+	}
 	outBufPtr := outBufPool.Get().(*[]byte)
 	outBuf := *outBufPtr
 	defer func() {
@@ -1093,7 +1095,9 @@ func (c *Conn) readHandshake() (interface{}, error) {
 	// expect to be able to keep references to data,
 	// so pass in a fresh copy that won't be overwritten.
 	data = append([]byte(nil), data...)
-	if verifHSReadHook != nil { verifHSReadHook(c, data) }
+	if verifHSReadHook != nil {
+		verifHSReadHook(c, data)
+	}
 
 	if !m.unmarshal(data) {
 		return nil, c.in.setErrorLocked(c.sendAlert(AlertUnexpectedMessage))
